@@ -500,7 +500,7 @@ def linearize(assertions, keep_squares=False):
     return out
 
 
-def check(assertions, timeout=30.0, want_model=False, solvers=None):
+def check(assertions, timeout=30.0, want_model=False, solvers=None, cheap_only=False):
     """Decide the conjunction of `assertions`.
 
     Returns (result, model, info): result in {'sat','unsat','unknown'}; model maps variable name to
@@ -556,6 +556,10 @@ def check(assertions, timeout=30.0, want_model=False, solvers=None):
                     return "unsat", None, {"solver": "z3-semi-linearised", "seconds": dt, "nonlinear": True}
         except Exception:
             pass
+        if cheap_only:
+            dt = time.time() - t0
+            STATS["seconds"] += dt
+            return "unknown", None, {"solver": "cheap-only", "seconds": dt, "nonlinear": True}
         fv = free_vars(assertions)
         has_int = any(z3.is_int(v) for v in fv.values()) or any(_mentions_int(a) for a in assertions)
         has_real = any(z3.is_real(v) for v in fv.values()) or any(_mentions_real(a) for a in assertions)
